@@ -11,9 +11,15 @@ CHECKS = {
  "C02": ("model_checking", "the interval iterator explored as a transition system (every next() of every explored stream) on the real code against the pointwise run-length oracle P built from the real schedule_at over every day of the window, including streams consumed to exhaustion over all 2 958 466 days",
          "Run-length equality between the iterator's stream and the per-day schedules for every expression of the bounded family, from every derived start instant; the long-skip list is checked over the full supported range so that skips of months to millennia are covered.",
          "P uses the real schedule_at (consistency of two paths of the implementation; schedule_at itself is C01). Expressions beyond the bound, time-zone contexts (C09) are outside.", "DESIGN.md §3 C02"),
+ "C03": ("model_checking", "exhaustive enumeration of derived instants (every boundary of the pointwise oracle with minute/sub-minute offsets, range extremes) on the real state/is_*/next_change against the pointwise run-length oracle P",
+         "state(t) and next_change(t) are compared with P at every derived instant of every expression of the bounded family; oracle-free relations (next_change > t, equal inside one run) are checked on the same instants.",
+         "P uses the real schedule_at. Long-horizon next_change queries are budgeted by a deterministic schedule_at-call counter (hook H1); skipped instants are counted in the evidence.", "DESIGN.md §3 C03"),
  "C05": ("model_checking", "exhaustive enumeration of the sentences of the grammar up to a size bound (every AST x every combination of documented syntactic variants) against the AST the sentence denotes; single-field corruptions must be rejected",
          "parse(sentence) must be == the generating AST for every rendering of every AST of the family by an independent printer (13 variant switches, full product on the relevant ones); negative family from the statement's list must be Err.",
          "Trusts the engine's printer/variant table as the definition of 'documented relaxations' (transcribed from grammar.pest comments); strings outside it are not judged.", "DESIGN.md §3 C05"),
+ "C08": ("model_checking", "exhaustive enumeration of the boundary expression family x a 17-instant alphabet (around and far outside both ends of 1900..9999) x all ordered instant pairs as iteration windows, on the real code against the statement and the pointwise oracle P",
+         "Every (expression, instant) and every (expression, from, to) combination of the boundary family is executed; closedness outside the range, window containment of every interval, next_change never at/after 10000-01-01 and its value from before 1900 are checked literally.",
+         "P uses the real schedule_at over all 2 958 466 days. NaiveDateTime::MAX itself is left to C04.", "DESIGN.md §3 C08"),
  "C10": ("model_checking", "complete enumeration of country x kind x date (1990..2085) on the real decoded calendars against an independent reader of the source text files; all [A-Za-z]{0,3} codes; PH/SH selectors through the real evaluator",
          "Exhaustive over a finite domain that strictly contains the data (1999..2075): every country, both calendars, every date, every short code string. Decides the property for the embedded data as built from the working tree.",
          "Trusts the source text files as ground truth, chrono date arithmetic, and flate2/LazyLock as used by the crate.", "DESIGN.md §3 C10"),
@@ -23,6 +29,9 @@ CHECKS = {
  "C15": ("model_checking", "explicit-state exploration of the real CompactCalendar: every insertion history up to the depth bound over a collision-forcing date alphabet, full query battery and serialization round trips in every state, against a BTreeSet",
          "Every history (not only every state) up to the depth is executed; states merged by date set are shown observably equal on every history. Exhaustive within alphabet x depth; CompactMonth/CompactYear over all subsets of <=3 days x all queries.",
          "Trusts std BTreeSet and chrono NaiveDate.", "DESIGN.md §3 C15"),
+ "C16": ("model_checking", "exhaustive enumeration of (expression, bound, derived instant) triples on the real bounded next_change/state against the exact answer from the pointwise oracle P",
+         "For 8 bounds from one day to a century, every instant placed at B, B-24h (each +-1 min) before every oracle boundary, at run starts and surrounding midnights: exact-or-none, exact within B-24h, none beyond B, state unchanged.",
+         "P uses the real schedule_at; for the one-kind family P covers 1899..2150 and only instants whose horizon lies inside it are used.", "DESIGN.md §3 C16"),
  "C19": ("model_checking", "complete enumeration of the finite input space of the real ExtendedTime API against an integer-minute reference model",
          "Exhaustive: every (u8,u8), every u16, every valid time x every i16/i8 offset, every ordered pair; nothing is sampled, so within the stated API the property is decided, not estimated.",
          "Trusts chrono::NaiveTime accessors and the engine's 10-line integer model.", "DESIGN.md §3 C19"),
